@@ -25,6 +25,7 @@ warnings.filterwarnings("ignore")
 
 from gen.objects import CARVERS, make_object  # noqa: E402
 from gen.samples import build  # noqa: E402
+import pandas as pd  # noqa: E402
 
 
 class _Async:
@@ -137,6 +138,35 @@ def handle(req):
                 "content": {canon(k): sorted(canon(m) for m in v) for k, v in order.content.items()},
                 "labels": [canon(v) for v in tr[f].tolist()],
             }
+        # a second frame in which qualitative features that own a default group receive values of the OTHER
+        # qualitative columns' vocabularies (unseen for them, known elsewhere): the output of a feature must not
+        # depend on what the columns transformed with it contain
+        if cfg["cls"] != "MulticlassCarver":
+            cross = X.iloc[: min(len(X), 40)].copy()
+            quali = sorted(c for c in X.columns if sample.specs[c]["kind"] in ("ordinal", "categorical"))
+            planted = False
+            for c in quali:
+                if c not in obj.features or "__OTHER__" not in [k for k in obj.values_orders[c].content if isinstance(k, str)]:
+                    continue
+                tokens = [v for o in quali if o != c for v in sample.specs[o]["values"] if isinstance(v, str) and v]
+                if not tokens:
+                    continue
+                crng = random.Random(f"{case['key']}:{c}")
+                col = cross[c].astype(object).tolist()
+                for i in range(len(col)):
+                    if crng.random() < 0.3:
+                        col[i] = crng.choice(tokens)
+                        planted = True
+                cross[c] = pd.Series(col, index=cross.index, dtype=object)
+            if planted:
+                try:
+                    tr2 = obj.transform(cross.copy())
+                    for f in obj.features:
+                        out["features"][f]["cross_labels"] = [canon(v) for v in tr2[f].tolist()]
+                except AssertionError as exc:
+                    out["cross_error"] = "assertion:" + str(exc)[:200]
+                except Exception as exc:  # noqa: BLE001
+                    out["cross_error"] = type(exc).__name__ + ":" + str(exc)[:200]
     return out
 
 
